@@ -2,11 +2,14 @@ mod bind;
 mod common;
 mod gram;
 mod props;
+mod refs;
+mod refs_lr;
 mod srcval;
 
 use common::Tier;
 
 fn main() {
+    common::init_out();
     common::install_panic_hook();
     let args: Vec<String> = std::env::args().collect();
     if args.len() < 2 {
